@@ -349,6 +349,18 @@ def _convert_condbr(
     parent = op.parent_block()
     assert parent is not None
     current_block = block_map[parent]
+    if then_block is else_block:
+        # Both edges come from this block: LLVM wants one phi entry per edge, with
+        # the same value, so the operand is chosen by a select on the condition.
+        cond = val_map[op.cond]
+        for arg, t, e in zip(then_block.args, op.then_arguments, op.else_arguments):
+            phi = val_map[arg]
+            assert isinstance(phi, PhiInstr)
+            val = val_map[t] if t is e else builder.select(cond, val_map[t], val_map[e])
+            phi.add_incoming(val, current_block)
+            phi.add_incoming(val, current_block)
+        builder.cbranch(cond, block_map[then_block], block_map[else_block])
+        return
     for arg, val in zip(then_block.args, op.then_arguments):
         phi = val_map[arg]
         assert isinstance(phi, PhiInstr)
